@@ -21,7 +21,9 @@ PROPERTY = "C07"
 LEVEL = "exploration"
 TECHNIQUE = ("bounded exhaustive enumeration (even N x atmosphere tuples x {plain, sub-harmonic}) with basis "
              "exhaustion over the Gaussian draws: every unit draw vector is injected through a Generator "
-             "double, giving the full response operator T and the exact ensemble covariance T T^T")
+             "double, giving the full response operator T and the exact ensemble covariance T T^T; frequency-by-"
+             "frequency and parameter-ladder cases beyond the full-operator sizes; exhaustive single-preemption "
+             "interleaving of two screen generations at library-line granularity")
 RULE = ("cases = {ft, sh} x even N in bound x (delta, r0, L0, l0) tuples, plus one refinement-ladder case per "
         "rung N at fixed N*delta = 4*L0; every case pushes all 2N^2 (+54) unit draws through the real code; "
         "all cases are non-trivial (N = 2 is the smallest even grid)")
